@@ -198,17 +198,28 @@ class Ctx:
             formula = z3.BoolVal(formula)
         t0 = time.time()
         neg = z3.Not(formula)
+        backend = "z3"
+        stringy = self._has_strings(neg)
+        if stringy:
+            self.solver.set("timeout", min(self.timeout_ms, 5000))
         r = self._check(neg)
+        self.solver.set("timeout", self.timeout_ms)
         if r == z3.unknown:
-            # one retry with a 4x budget before the obligation is reported as not discharged
-            self.solver.set("timeout", self.timeout_ms * 4)
-            try:
-                r = self._check(neg)
-            finally:
-                self.solver.set("timeout", self.timeout_ms)
+            # second opinion: cvc5 (decides the string obligations z3 leaves open); then one z3 retry with a 4x budget
+            r2 = cvc5_check(self.smt2(neg), 60 if stringy else 20)
+            if r2 is not None:
+                r, backend = r2, "cvc5"
+            elif not stringy:
+                self.solver.set("timeout", self.timeout_ms * 4)
+                try:
+                    r = self._check(neg)
+                finally:
+                    self.solver.set("timeout", self.timeout_ms)
         dt = time.time() - t0
         if r == z3.unsat:
-            c = Check(oid, "discharged", seconds=dt, detail=detail)
+            c = Check(oid, "discharged", seconds=dt, detail=detail, backend=backend)
+        elif r == z3.sat and backend == "cvc5":
+            c = Check(oid, "failed", model={"__note__": "refuted by cvc5 (no model extracted)"}, seconds=dt, detail=detail, backend=backend)
         elif r == z3.sat:
             m = self.solver.model()
             c = Check(oid, "failed", model=self.model_dict(m), seconds=dt, detail=detail)
@@ -218,6 +229,25 @@ class Ctx:
         c.path = list(self.decisions[: self.di])
         self.checks.append(c)
         return c
+
+    def _has_strings(self, f):
+        if getattr(self, "_stringy", False):
+            return True
+        seen = set()
+        todo = [f] + list(self.pc[-30:])
+        while todo:
+            e = todo.pop()
+            if e.get_id() in seen:
+                continue
+            seen.add(e.get_id())
+            if z3.is_expr(e) and e.sort().kind() == z3.Z3_SEQ_SORT:
+                self._stringy = True
+                return True
+            if z3.is_app(e):
+                todo.extend(e.children())
+            elif z3.is_quantifier(e):
+                todo.append(e.body())
+        return False
 
     def fail(self, oid, detail=None):
         """An obligation that fails whenever this point is reachable."""
@@ -259,6 +289,32 @@ class Ctx:
             self.ghost[name] = cur + delta
         else:
             self.ghost[name] = z3.simplify(_z(cur) + _z(delta))
+
+
+def cvc5_check(smt2, seconds):
+    """Run /usr/bin/cvc5 on an SMT-LIB query; returns z3.unsat / z3.sat / None (unknown, timeout, error)."""
+    import os
+    import subprocess
+    import tempfile
+    exe = "/usr/bin/cvc5"
+    if not os.path.exists(exe):
+        return None
+    with tempfile.NamedTemporaryFile("w", suffix=".smt2", delete=False) as f:
+        f.write("(set-logic ALL)\n" + smt2)
+        path = f.name
+    try:
+        p = subprocess.run([exe, "--strings-exp", f"--tlimit={int(seconds * 1000)}", path], capture_output=True, text=True,
+                           timeout=seconds + 10)
+        out = p.stdout.strip().splitlines()
+        if out and out[0] == "unsat":
+            return z3.unsat
+        if out and out[0] == "sat":
+            return z3.sat
+        return None
+    except Exception:
+        return None
+    finally:
+        os.unlink(path)
 
 
 def _z(v):
